@@ -1727,12 +1727,6 @@ class _TotalJacInfo(object):
                             # reset any Problem level data for the current iteration
                             self.model._problem_meta['parallel_deriv_color'] = None
                             self.model._problem_meta['seed_vars'] = None
-                
-                self._apply_unit_scaling(self.J_dict)
-
-                # Driver scaling.
-                if self.has_scaling:
-                    self._driver._autoscaler.apply_jac_scaling(self.J_dict)
 
                 # if some of the wrt vars are distributed in fwd mode, we bcast from the rank
                 # where each part of the distrib var exists
@@ -1743,14 +1737,23 @@ class _TotalJacInfo(object):
                         model.comm.Bcast(contig, root=rank)
                         self.J[:, start:stop] = contig
 
+                # The substitution method of bidirectional coloring recovers some entries by subtracting
+                # already recovered ones.  This must be done on the complete, unscaled jacobian because
+                # entries in different rows/columns get different unit and driver scaling factors.
+                if self.simul_coloring is not None and self.simul_coloring._subtractions:
+                    self.simul_coloring._apply_subtractions(self.J)
+
+                self._apply_unit_scaling(self.J_dict)
+
+                # Driver scaling.
+                if self.has_scaling:
+                    self._driver._autoscaler.apply_jac_scaling(self.J_dict)
+
                 if debug_print:
                     # Debug outputs scaled derivatives.
                     self._print_derivatives()
         finally:
             self.model._recording_iter.pop()
-
-        if self.simul_coloring is not None and self.simul_coloring._subtractions:
-            self.simul_coloring._apply_subtractions(self.J)
 
         return self.J_final
 
